@@ -1045,9 +1045,13 @@ impl<'a, const N: usize> Props for __PrivateMacroProps<'a, N> {
     fn get<'v, K: ToStr>(&'v self, key: K) -> Option<Value<'v>> {
         let key = key.to_str();
 
+        // The array is sorted by the identifiers of its keys at expansion time.
+        // A key renamed through `#[emit::key]` may sort differently, leaving the
+        // array unordered, so a miss in the binary search falls back to a scan
         self.0
             .binary_search_by(|(k, _)| k.cmp(&key))
             .ok()
+            .or_else(|| self.0.iter().position(|(k, _)| *k == key))
             .and_then(|i| self.0[i].1.as_ref().map(|v| v.by_ref()))
     }
 
